@@ -625,6 +625,11 @@ def _r14_4_table(r, f: Fn, vn: str, df: str):
             texts = {norm(x) for x in ast.walk(v) if isinstance(x, ast.Attribute)}
             if not (w and w <= want and '%s.value' % vn in texts):
                 ok = False
+            # the words are lower case: the node text must be folded before it is compared (YAML writes True / TRUE / Yes as well)
+            folded = any(isinstance(x, ast.Call) and isinstance(x.func, ast.Attribute) and x.func.attr in ('lower', 'casefold')
+                         and '%s.value' % vn in norm(x.func.value) for x in ast.walk(v))
+            if not folded:
+                ok = False
         r.check(ok, 'default %s matches only %s-spellings %s' % (cell.capitalize(), cell, sorted(words)), f.key(key), f.loc(),
                 'under `default is %s` the node text is compared with %s: a %s value would be dropped from the dump and come back '
                 'as %s' % (cell.capitalize(), sorted(words), 'False' if cell == 'true' else 'True', cell.capitalize()))
